@@ -141,6 +141,23 @@ def handle (kind : String) (args : List String) (impl : String) : String :=
       let vs := parts.map fun p => runOn toks p
       match vs.find? (· != "ok") with | some v => v | none => "ok"
     else runOn toks impl
+  | "c02.flt", toks =>
+    -- the model's own run of this script: every request queued, then the writer takes them one by one; a banned command is
+    -- answered by the filter (`wFilterStop`), the others are encoded and handed over.  `nothing_left_in_the_write_buffer`:
+    -- at the end the buffer is empty, so the backend has received every request that was encoded and answers it.
+    let n := toks.length
+    let queue : List Label := (List.range n).flatMap fun i => [.sendBegin i, .sendEnq i]
+    let writer : List Label := toks.flatMap fun tk => if tk == "a" then [.wTake, .wFilterStop] else [.wTake, .wEncodeOk, .wHandoff]
+    match run ({ cap := 1024 } : Cl) (queue ++ writer) with
+    | none => "bad-op"
+    | some s =>
+      -- (+1: every new backend connection starts with READONLY, queued before anything else)
+      let sentToBackend := (toks.filter (· != "a")).length + 1
+      let m := if s.unflushed.isEmpty then s!"answered={n}/{n} backend={sentToBackend}"
+               else s!"answered={n - s.unflushed.length}/{n} backend={sentToBackend - s.unflushed.length}"
+      let d := if impl == m then "" else s!"DIFF model={m} impl={impl}"
+      let sp := if impl.startsWith s!"answered={n}/{n} " then "" else s!"SPEC request-not-answered-although-the-backend-is-up impl={impl}"
+      if d == "" && sp == "" then "ok" else d ++ (if d != "" && sp != "" then " ; " else "") ++ sp
   | "c02.multi", _ =>
     if impl == "once" then "ok" else s!"SPEC request-not-answered-exactly-once-or-stop-hangs impl={impl}"
   | "c02.stress", _ =>
